@@ -1,11 +1,300 @@
+import TinsModel.Address.Model
+import TinsModel.Address.Spec
 import Driver.Util
-/- line-protocol driver for property C16 (stub until the area is built) -/
+/- line-protocol driver for property C16 (address types): model mode and spec (oracle) mode.
+   The op lines are documented in harness/c16_address.cpp. -/
 namespace Driver.C16
-open Driver
+open Driver Tins.Addr
 
-def step (st : Unit) (_line : String) : Unit × String := (st, "unimplemented")
-def specStep (st : Unit) (_line : String) : Unit × String := (st, "unimplemented")
+/-- iteration budget; must equal CAP in harness/c16_address.cpp -/
+def cap : Nat := 66000
+
+/-- optional trailing `[cap]` argument of the iterating ops -/
+def capOf (rest : List String) : Nat := (rest.head?.bind (·.toNat?)).getD cap
+
+def hexN (s : String) : Option (List Nat) := (parseHex s).map (·.map (·.toNat))
+def toHexN (bs : List Nat) : String := toHex (bs.map UInt8.ofNat)
+def b2s (b : Bool) : String := if b then "1" else "0"
+def fnvN (bss : List (List Nat)) : UInt64 :=
+  bss.foldl (fun h bs => bs.foldl (fun h b => (h ^^^ UInt64.ofNat b) * 1099511628211) h) 14695981039346656037
+
+/-- `memcpy` of four bytes into / out of a little-endian `uint32_t` (harness side of the IPv4 API boundary) -/
+def leLoad : List Nat → Nat
+  | [b0, b1, b2, b3] => b0 + b1 * 256 + b2 * 65536 + b3 * 16777216
+  | _ => 0
+def leStore (v : Nat) : List Nat := [v % 256, v / 256 % 256, v / 65536 % 256, v / 16777216 % 256]
+
+def v4In (bs : List Nat) : Nat := V4.ofU32 (leLoad bs)
+def v4Out (a : Nat) : List Nat := leStore (V4.toU32 a)
+
+/-- the family-specific pieces the generic op interpreter needs -/
+structure Family (A : Type) where
+  n : Nat
+  ops : Ops A
+  dec : List Nat → A
+  enc : A → List Nat
+  gt : A → A → Bool
+  bor : A → A → A
+  bnot : A → A
+  hash : A → String
+  parse : List Nat → String → Option A     -- text, reference field
+  fmt : A → String → List Nat
+  slash : A → Int → Slash A
+  showMask : A → String
+
+def fam4 : Family Nat where
+  n := 4
+  ops := v4Ops
+  dec := v4In
+  enc := v4Out
+  gt := V4.gt
+  bor := V4.bor
+  bnot := V4.bnot
+  hash := fun a => toString (V4.hash a)
+  parse := fun s _ => V4.parse (s.takeWhile (· != 0))
+  fmt := fun a _ => V4.fmt a
+  slash := slash4I
+  showMask := fun m => toHexN (v4Out m)
+
+def famBuf (k : Nat) (hashed : Bool) (libcText : Bool) : Family Buf where
+  n := k
+  ops := bufOps
+  dec := id
+  enc := id
+  gt := B.gt
+  bor := B.bor
+  bnot := B.bnot
+  hash := fun a => if hashed then toString (B.hash6 a) else "-"
+  parse := fun s ref => if libcText then (if ref.length == 2 * k then hexN ref else none) else B.parseHw k s
+  fmt := fun a ref => if libcText then (hexN ref).getD [] else B.fmtHw a
+  slash := slashBufI k
+  showMask := fun m => if libcText then toHexN m else "-"
+
+def showIter {A} (f : Family A) (r : Range A) (cap : Nat) : String :=
+  if !r.isIterable f.ops then "it=0" else
+  let (vis, fin) := r.iterate f.ops cap
+  let bs := vis.map f.enc
+  let fst := match bs.head? with | some b => toHexN b | none => "-"
+  let lst := match bs.getLast? with | some b => toHexN b | none => "-"
+  s!"it=1 n={bs.length} ov={b2s (!fin)} f={fst} l={lst} h={fnvN bs}"
+
+def showEnds {A} (f : Family A) (r : Range A) : String :=
+  s!"first={toHexN (f.enc r.first)} last={toHexN (f.enc r.last)}"
+
+def addr {A} (f : Family A) (h : String) : Option A := do
+  let b ← hexN h
+  if b.length == f.n then some (f.dec b) else none
+
+def runModel {A} (f : Family A) (w : List String) : String :=
+  let o := f.ops
+  let hx := fun (a : A) => toHexN (f.enc a)
+  match w with
+  | "cmp" :: _ :: a :: b :: _ => match addr f a, addr f b with
+    | some a, some b =>
+      let lt := o.lt a b; let gt := f.gt a b
+      s!"lt={b2s lt} gt={b2s gt} le={b2s (!gt)} ge={b2s (!lt)} eq={b2s (o.eq a b)} ne={b2s (!o.eq a b)} hash={f.hash a} heq={b2s (f.hash a == f.hash b && (f.hash a != "-" || o.eq a b))}"
+    | _, _ => "bad-op"
+  | "bit" :: _ :: a :: b :: _ => match addr f a, addr f b with
+    | some a, some b => s!"and={hx (o.band a b)} or={hx (f.bor a b)} not={hx (f.bnot a)}"
+    | _, _ => "bad-op"
+  | "txt" :: _ :: t :: rest => match hexN t with
+    | some s => match f.parse s (rest.headD "x") with
+      | some a => s!"ok {hx a}"
+      | none => "throw invalid_address"
+    | none => "bad-op"
+  | "fmt" :: _ :: a :: rest => match addr f a with
+    | some a =>
+      let s := f.fmt a (rest.headD "-")
+      -- the text is parsed back with the same constructor; for the libc-backed family the reference is echoed
+      let back := match f.parse s (toHexN (f.enc a)) with | some b => hx b | none => "throw:invalid_address"
+      s!"s={toHexN s} back={back}"
+    | none => "bad-op"
+  | "pfx" :: _ :: a :: p :: rest => match addr f a, p.toInt? with
+    | some a, some p => match f.slash a p with
+      | .logicError => "throw logic_error"
+      | .invalidRange => "throw invalid_range"
+      | .ok m r => s!"mask={f.showMask m} {showEnds f r} {showIter f r (capOf rest)}"
+    | _, _ => "bad-op"
+  | "msk" :: _ :: a :: m :: rest => match addr f a, addr f m with
+    | some a, some m => match Range.fromMask o a m with
+      | none => "throw invalid_range"
+      | some r => s!"{showEnds f r} {showIter f r (capOf rest)}"
+    | _, _ => "bad-op"
+  | "rng" :: _ :: a :: b :: oh :: rest => match addr f a, addr f b with
+    | some a, some b => match Range.make o a b (oh == "1") with
+      | none => "throw invalid_range"
+      | some r => showIter f r (capOf rest)
+    | _, _ => "bad-op"
+  | "has" :: _ :: a :: b :: x :: _ => match addr f a, addr f b, addr f x with
+    | some a, some b, some x => match Range.make o a b false with
+      | none => "throw invalid_range"
+      | some r => s!"c={b2s (r.contains o x)}"
+    | _, _, _ => "bad-op"
+  | "inc" :: _ :: a :: _ => match addr f a with
+    | some a => let (a', r) := o.inc a; s!"a={hx a'} r={b2s r}"
+    | none => "bad-op"
+  | "dec" :: _ :: a :: _ => match addr f a with
+    | some a => let (a', r) := o.dec a; s!"a={hx a'} r={b2s r}"
+    | none => "bad-op"
+  | _ => "bad-op"
+
+def step (st : Unit) (line : String) : Unit × String :=
+  let w := words line
+  match w with
+  | _ :: "4" :: _ => (st, runModel fam4 w)
+  | _ :: "6" :: _ => (st, runModel (famBuf 16 true true) w)
+  | _ :: "h" :: _ => (st, runModel (famBuf 6 false false) w)
+  | _ => (st, "bad-op")
+
 def initModel : Unit := ()
+
+/-! ## spec (oracle) mode: `<op> ||| <implementation output>` -/
+open Tins.Addr.Spec
+
+def kv (ws : List String) (key : String) : Option String :=
+  ws.findSome? (fun w => if w.startsWith (key ++ "=") then some ((w.drop (key.length + 1)).toString) else none)
+
+def famN (f : String) : Option Nat :=
+  if f == "4" then some 4 else if f == "6" then some 16 else if f == "h" then some 6 else none
+
+def numOf (n : Nat) (h : String) : Option Nat := do
+  let b ← hexN h
+  if b.length == n then some (val b) else none
+
+def hexOf (n v : Nat) : String := toHexN (bytesOf n v)
+
+/-- expect `key=<expected>` in the output -/
+def want (ow : List String) (key expected : String) : Option String :=
+  match kv ow key with
+  | some v => if v == expected then none else some s!"violates {key} expected={expected} got={v}"
+  | none => some s!"violates {key} missing"
+
+def firstBad : List (Option String) → String
+  | [] => "ok"
+  | some e :: _ => e
+  | none :: r => firstBad r
+
+/-- the iteration part of an output against the range `[first, last]` / hosts of it -/
+def checkIter (cap n first last : Nat) (oh : Bool) (ow : List String) : Option String :=
+  match kv ow "it" with
+  | none => some "violates iterable missing"
+  | some it =>
+    let itb := it == "1"
+    match iterableSpec first last oh with
+    | some b => if b != itb then some s!"violates iterable expected={b2s b} got={it}" else
+      if !itb then none else checkVisited cap n first last oh ow
+    | none => if !itb then none else checkVisited cap n first last oh ow
+where
+  checkVisited (cap n first last : Nat) (oh : Bool) (ow : List String) : Option String :=
+    let total := iterCount first last oh
+    let cnt := min total cap
+    let start := iterStart first oh
+    let bs := (List.range' start cnt).map (bytesOf n)
+    match want ow "n" (toString cnt) with
+    | some e => some (e.replace "violates n" "violates iteration-count")
+    | none =>
+      match want ow "ov" (b2s (decide (total > cap))) with
+      | some e => some (e.replace "violates ov" "violates iteration-terminates")
+      | none =>
+        let f := if cnt == 0 then "-" else hexOf n start
+        let l := if cnt == 0 then "-" else hexOf n (start + cnt - 1)
+        match want ow "f" f, want ow "l" l, want ow "h" (toString (fnvN bs)) with
+        | some e, _, _ => some (e.replace "violates f" "violates iteration-first")
+        | _, some e, _ => some (e.replace "violates l" "violates iteration-last")
+        | _, _, some e => some (e.replace "violates h" "violates iteration-sequence")
+        | _, _, _ => none
+
+def isThrow (out : String) : Bool := out.startsWith "throw" || out.startsWith "FAULT"
+
+def specLine (op out : String) : String :=
+  let w := words op
+  let ow := words out
+  match w with
+  | name :: fam :: args =>
+    match famN fam with
+    | none => "unspecified"
+    | some n =>
+      let num := numOf n
+      match name, args with
+      | "cmp", a :: b :: _ => match num a, num b with
+        | some a, some b =>
+          firstBad [want ow "lt" (b2s (decide (a < b))), want ow "gt" (b2s (decide (a > b))),
+                    want ow "le" (b2s (decide (a ≤ b))), want ow "ge" (b2s (decide (a ≥ b))),
+                    want ow "eq" (b2s (decide (a = b))), want ow "ne" (b2s (decide (a ≠ b))),
+                    if a = b then (want ow "heq" "1").map (·.replace "violates heq" "violates hash-consistent") else none]
+        | _, _ => "unspecified"
+      | "bit", a :: b :: _ => match num a, num b with
+        | some a, some b =>
+          firstBad [want ow "and" (hexOf n (Nat.land a b)), want ow "or" (hexOf n (Nat.lor a b)),
+                    want ow "not" (hexOf n (card n - 1 - a))]
+        | _, _ => "unspecified"
+      | "txt", t :: rest => match hexN t with
+        | some s =>
+          if s.contains 0 then "unspecified" else
+          let exp : Option (Option (List Nat)) :=
+            if fam == "4" then some (parse4 s)
+            else if fam == "h" then some (Spec.parseHw 6 s)
+            else match rest with
+              | r :: _ => if r == "x" then some none else (hexN r).map some
+              | [] => none
+          match exp with
+          | none => "unspecified"
+          | some (some a) => if out == s!"ok {toHexN a}" then "ok" else s!"violates text-accept expected=ok {toHexN a}"
+          | some none => if out == "throw invalid_address" then "ok" else "violates text-reject expected=throw invalid_address"
+        | none => "unspecified"
+      | "fmt", a :: rest => match hexN a with
+        | some ab =>
+          let s := if fam == "4" then some (toHexN (fmt4 ab)) else if fam == "h" then some (toHexN (Spec.fmtHw ab))
+                   else rest.head?
+          firstBad [(want ow "back" a).map (·.replace "violates back" "violates text-roundtrip"),
+                    match s with | some s => (want ow "s" s).map (·.replace "violates s" "violates text-form") | none => none]
+        | none => "unspecified"
+      | "pfx", a :: p :: rest => match num a, p.toInt? with
+        | some a, some pi =>
+          let p := pi.toNat
+          if pi < 0 then (if out == "throw logic_error" then "ok" else "violates prefix-negative expected=throw logic_error")
+          else if p > 8 * n then (if out == "throw logic_error" then "ok" else "violates prefix-too-long expected=throw logic_error")
+          else if isThrow out then s!"violates prefix-range-throws {out}" else
+          let first := prefixFirst n a p
+          let last := prefixLast n a p
+          firstBad [if fam == "h" then none else want ow "mask" (hexOf n (Spec.prefixMask n p)),
+                    want ow "first" (hexOf n first), want ow "last" (hexOf n last),
+                    -- prefix ranges: iterable exactly when there is a host, i.e. p ≤ 8n - 2
+                    (want ow "it" (b2s (decide (p + 2 ≤ 8 * n)))).map (·.replace "violates it" "violates prefix-iterable"),
+                    checkIter (capOf rest) n first last true ow]
+        | _, _ => "unspecified"
+      | "msk", a :: m :: rest => match num a, num m with
+        | some a, some m =>
+          if isThrow out then s!"violates mask-range-throws {out}" else
+          let first := maskFirst a m
+          let last := maskLast n a m
+          firstBad [want ow "first" (hexOf n first), want ow "last" (hexOf n last), checkIter (capOf rest) n first last true ow]
+        | _, _ => "unspecified"
+      | "rng", a :: b :: oh :: rest => match num a, num b with
+        | some a, some b =>
+          if b < a then (if out == "throw invalid_range" then "ok" else "violates range-order expected=throw invalid_range")
+          else if isThrow out then s!"violates range-throws {out}"
+          else firstBad [checkIter (capOf rest) n a b (oh == "1") ow]
+        | _, _ => "unspecified"
+      | "has", a :: b :: x :: _ => match num a, num b, num x with
+        | some a, some b, some x =>
+          if b < a then (if out == "throw invalid_range" then "ok" else "violates range-order expected=throw invalid_range")
+          else firstBad [(want ow "c" (b2s (Spec.contains a b x))).map (·.replace "violates c" "violates contains")]
+        | _, _, _ => "unspecified"
+      | "inc", a :: _ => match num a with
+        | some a => firstBad [(want ow "a" (hexOf n ((a + 1) % card n))).map (·.replace "violates a" "violates increment")]
+        | none => "unspecified"
+      | "dec", a :: _ => match num a with
+        | some a => firstBad [(want ow "a" (hexOf n ((a + card n - 1) % card n))).map (·.replace "violates a" "violates decrement")]
+        | none => "unspecified"
+      | _, _ => "unspecified"
+  | _ => "unspecified"
+
+def specStep (st : Unit) (line : String) : Unit × String :=
+  match line.splitOn " ||| " with
+  | [op, out] => (st, specLine op out.trimAscii.toString)
+  | _ => (st, "bad-line")
+
 def initSpec : Unit := ()
 
 end Driver.C16
